@@ -54,6 +54,10 @@ func (target Target) SetCapabilities(v Version) error {
 	}
 
 	for _, cap := range target.Capabilities {
+		// A capability is only available in its ranges - also when an
+		// earlier evaluation of v enabled it and it has no ranges now.
+		v.SetCapability(cap, false)
+
 		for _, vrange := range cap.VersionRanges {
 			if vrange.Introduced != "" && vrange.Removed != "" {
 				i, err := cmpFn(vrange.Introduced, vrange.Removed)
